@@ -95,9 +95,13 @@ def overlay_file(pid):
             if os.path.exists(dst):
                 raise Broken("overlay file would replace an existing repository file: %s" % rel)
             repl[dst] = src
+    # written under a private name and moved into place: concurrent drivers of one property never read a
+    # half-written file
     p = os.path.join(outdir(pid), "overlay.json")
-    with open(p, "w") as fh:
+    tmp = "%s.%d.%d" % (p, os.getpid(), time.time_ns() % 1000000007)
+    with open(tmp, "w") as fh:
         json.dump({"Replace": repl}, fh, indent=1)
+    os.replace(tmp, p)
     return p
 
 
